@@ -914,6 +914,27 @@ def _max(interp, st, a, **kw):
     return r
 
 
+def _masked_extreme(interp, st, a, op):
+    vals, mask = _values_of(interp, st, a)
+    items = [(v, True if mask is None else simp_bool(mask[i])) for i, v in enumerate(vals)]
+    items = [(v, m) for v, m in items if m is not False]
+    sure = [v for v, m in items if m is True]
+    if not sure:
+        if not items:
+            raise I().Raised("ValueError", "zero-size array to reduction operation")
+        raise Unsupported("max / min of a compacted array without a certainly present element")
+    r = sure[0]
+    for v, m in items:
+        cand = op(r, v)
+        r = cand if m is True else interp.A.ite(m, cand, r)
+    return r
+
+
+@native
+def np_ptp(interp, st, a, **kw):
+    return interp.A.sub(_masked_extreme(interp, st, a, interp.A.maximum), _masked_extreme(interp, st, a, interp.A.minimum))
+
+
 def _argsort_m(interp, st, a, *args, **kw):
     return np_argsort(interp, st, a, *args, **kw)
 
@@ -1739,7 +1760,7 @@ LIB = {
     "numpy.sum": np_sum, "numpy.abs": np_abs, "numpy.round": np_round, "numpy.isnan": np_isnan, "numpy.isinf": np_isinf,
     "numpy.isfinite": np_isfinite, "numpy.cos": _np_ew("cos"), "numpy.sqrt": _np_ew("sqrt"), "numpy.log": _np_ew("log"),
     "numpy.median": np_median, "numpy.nanmedian": np_nanmedian, "numpy.unique": np_unique, "numpy.sort": np_sort, "numpy.where": np_where,
-    "numpy.any": np_any, "numpy.all": np_all, "numpy.diff": np_diff, "numpy.searchsorted": np_searchsorted, "numpy.argsort": np_argsort,
+    "numpy.any": np_any, "numpy.all": np_all, "numpy.diff": np_diff, "numpy.searchsorted": np_searchsorted, "numpy.argsort": np_argsort, "numpy.ptp": np_ptp,
     "numpy.log10": np_log10, "numpy.minimum": np_minimum, "numpy.maximum": np_maximum, "numpy.dtype": np_dtype, "numpy.datetime64": np_datetime64, "pandas.unique": pd_unique,
     "numba.prange": numba_prange,
     "scipy.special.digamma": _special("digamma", 1), "scipy.special.gammainc": _special("gammainc", 2),
